@@ -137,6 +137,7 @@ SPEC = [
          kwargs={"evolution": L(L("agent")), "rates": L("R"), "best_solution": O("agent"), "task_type": "dir"}, params={},
          ret=T(L(L("agent")), L("R"), O("agent"), "dir"), ret_fields=["evolution", "rates", "best_solution", "task_type"], Rtype=True,
          nested={"refine_best_solution": dict(params={"a": "agent", "tt": "dir"}, ret="agent")}),
+    dict(name="optimizer_init", src=("abstract.py", "OptimizationAbstract.__init__"), params={"config": O("cfg"), "debug": "bool"}, ret="unit", selfrec=True, hooks=True, R=True),
     dict(name="optimize", src=("abstract.py", "OptimizationAbstract.optimize"), params={"task": "task", "mode": O("str"), "workers": O("int")},
          ret=T(L(L("agent")), L("R"), O("agent"), "dir"), R=True, selfrec=True, hooks=True, fuel=True,
          opaque={"average_fitness": ("average_fitness", "List Agent → R", "R")}, consts={"1": "one"},
@@ -286,7 +287,7 @@ class Fn:
 
     def ret_term(self, val):
         if self.selfrec:
-            return f"({val}, self)"
+            return f"({'()' if val is None else val}, self)"
         ws = [n for n, _ in self.selfw.values()]
         if not ws:
             return val if val is not None else "()"
